@@ -3,6 +3,7 @@
 -/
 import Driver.EngReader
 import Driver.EngComb
+import Driver.EngScan
 
 open Driver
 
@@ -10,6 +11,7 @@ def runLine (line : String) : String × String :=
   match (line.splitOn " ").head? with
   | some "reader" => runReaderCase line
   | some "comb" => runCombCase line
+  | some "scan" => runScanCase line
   | _ => ("unknown-engine", "")
 
 partial def loop (h : IO.FS.Stream) (out : IO.FS.Stream) : IO Unit := do
